@@ -266,6 +266,25 @@ def main():
         for depth in (1, 2, 3, 4, 5):
             Hy = hierarchy(ham, sbi, depth)
             prop = KTHierarchyPropagator(ta, Hy)
+            if s % 2 == 1:
+                # the hierarchy and its propagator were used before, for
+                # another initial state (every propagation starts from empty
+                # auxiliary operators)
+                v0 = numpy.array([0.6, 0.64j, 0.48])
+                rw = qr.ReducedDensityMatrix(dim=ham.dim)
+                rw.data[:, :] = numpy.outer(v0, v0.conj())
+                rtw = prop.propagate(rw).data
+                trw = float(numpy.abs(numpy.trace(rtw, axis1=1, axis2=2)
+                                      - 1.0).max())
+                hew = float(numpy.abs(rtw - numpy.conj(
+                    numpy.transpose(rtw, (0, 2, 1)))).max())
+                if trw > 1e-9 or hew > 1e-9:
+                    ck.violation("unit-trace" if trw > 1e-9 else "hermitian",
+                                 "propagate:first-use",
+                                 dict(depth=depth, trace=trw, herm=hew),
+                                 dict(kind="convergence",
+                                      reorg=reorg.tolist(),
+                                      cortime=cort.tolist(), T=T))
             rhoi = qr.ReducedDensityMatrix(dim=ham.dim)
             rhoi.data[:, :] = 1.0 / 3.0          # (|0>+|1>+|2>)/sqrt3
             rt = prop.propagate(rhoi).data
@@ -280,7 +299,7 @@ def main():
             e = max(e, float(numpy.abs(rt[:, 1, 2] - ref).max()))
             errs.append(e)
         smp = dict(reorg=reorg.tolist(), cortime=cort.tolist(), T=T,
-                   errors_by_depth=errs)
+                   errors_by_depth=errs, propagator_used_before=bool(s % 2))
         ck.case("depth-convergence", ("conv", s), sample=smp)
         mono = all(errs[i + 1] <= errs[i] * 1.001 + 1e-6
                    for i in range(len(errs) - 1))
